@@ -67,6 +67,26 @@ type GoStmt struct {
 	Qual string // qualifier as written (package qualifier or receiver / parameter variable)
 	Func string // callee name (unique id) for call kinds and defer
 	Text string // full statement text
+	// Inner: the statements of a function literal passed as the last argument of this call statement
+	// (`r.Each(func(name string) { log.Println(name); r.Touch(name) })`); the call statements among them are call
+	// statements of the enclosing function
+	Inner []GoStmt
+	// InCallback: this statement is written inside such a function literal
+	InCallback bool
+}
+
+// AllStmts returns the statements of the body including, recursively, those written inside callbacks.
+func (f *GoFunc) AllStmts() []GoStmt {
+	var out []GoStmt
+	var walk func(ss []GoStmt)
+	walk = func(ss []GoStmt) {
+		for _, s := range ss {
+			out = append(out, s)
+			walk(s.Inner)
+		}
+	}
+	walk(f.Body)
+	return out
 }
 
 type GoRecv struct {
@@ -95,12 +115,13 @@ type GoDecl struct {
 }
 
 type GoFile struct {
-	File        string
-	Pkg         string
-	Imports     []GoImport
-	ImportStyle int // 0 grouped, 1 one line each, 2 mixed
-	Decls       []GoDecl
-	Text        string
+	InlineIfaces int // interface types written in place (parameters, struct fields)
+	File         string
+	Pkg          string
+	Imports      []GoImport
+	ImportStyle  int // 0 grouped, 1 one line each, 2 mixed
+	Decls        []GoDecl
+	Text         string
 }
 
 func (f *GoFile) walk(fn func(d *GoDecl)) {
@@ -158,6 +179,7 @@ func (f *GoFile) Methods() []*GoFunc {
 }
 
 type goGen struct {
+	inline  int // inline interface types written so far
 	r       *run.Rand
 	nm      *namer
 	imports []GoImport
@@ -178,6 +200,17 @@ func (g *goGen) typeExpr() string {
 		if im.Qual != "" {
 			q = im.Qual + "." + capitalize(r.Pick(lowerWords))
 		}
+	}
+	if r.Chance(1, 14) {
+		// an interface type written in place, with a method set of its own (not a declaration: nothing is demanded
+		// for it, but the declared types around it must keep their entries)
+		n := r.Range(1, 2)
+		var ms []string
+		for i := 0; i < n; i++ {
+			ms = append(ms, g.nm.camelVerb(true)+"("+r.Pick([]string{"", "string", "int, error"})+")"+r.Pick([]string{"", " error", " int"}))
+		}
+		g.inline++
+		return "interface{ " + strings.Join(ms, "; ") + " }"
 	}
 	switch r.Intn(16) {
 	case 0, 1, 2, 3, 4, 5:
@@ -386,13 +419,13 @@ func (g *goGen) body(fn *GoFunc) []GoStmt {
 		k := r.Intn(12)
 		switch {
 		case k < 3 && len(quals) > 0:
-			q := r.Pick(quals)
-			f := g.nm.camelVerb(true)
-			out = append(out, GoStmt{Kind: StCallPkg, Qual: q, Func: f, Text: q + "." + f + "(" + g.args(vars) + ")"})
+			st := GoStmt{Kind: StCallPkg, Qual: r.Pick(quals), Func: g.nm.camelVerb(true)}
+			g.finishCall(&st, vars, quals, callVars, 1)
+			out = append(out, st)
 		case k < 6 && len(callVars) > 0:
-			q := r.Pick(callVars)
-			f := g.nm.camelVerb(r.Bool())
-			out = append(out, GoStmt{Kind: StCallRecv, Qual: q, Func: f, Text: q + "." + f + "(" + g.args(vars) + ")"})
+			st := GoStmt{Kind: StCallRecv, Qual: r.Pick(callVars), Func: g.nm.camelVerb(r.Bool())}
+			g.finishCall(&st, vars, quals, callVars, 1)
+			out = append(out, st)
 		case k == 6:
 			f := g.nm.camelVerb(false)
 			out = append(out, GoStmt{Kind: StCallBare, Func: f, Text: f + "(" + g.args(vars) + ")"})
@@ -476,6 +509,42 @@ func (g *goGen) body(fn *GoFunc) []GoStmt {
 		out = append(out, g.returnStmt(fn, vars, quals, callVars))
 	}
 	return out
+}
+
+// finishCall writes the argument list of a call statement; one call statement in five gets a function literal as
+// its last argument whose body holds 1-3 statements (call statements, assignments; callbacks nest up to depth 2).
+func (g *goGen) finishCall(st *GoStmt, vars, quals, callVars []string, depth int) {
+	r := g.r
+	args := g.args(vars)
+	if depth <= 2 && r.Chance(1, 5) {
+		p := g.nm.lower()
+		innerVars := append(append([]string{}, vars...), p)
+		onVars := append(append([]string{}, callVars...), p)
+		n := r.Range(1, 3)
+		var lines []string
+		for i := 0; i < n; i++ {
+			var in GoStmt
+			switch k := r.Intn(6); {
+			case k < 2 && len(quals) > 0:
+				in = GoStmt{Kind: StCallPkg, Qual: r.Pick(quals), Func: g.nm.camelVerb(true)}
+				g.finishCall(&in, innerVars, quals, callVars, depth+1)
+			case k < 5:
+				in = GoStmt{Kind: StCallRecv, Qual: r.Pick(onVars), Func: g.nm.camelVerb(r.Bool())}
+				g.finishCall(&in, innerVars, quals, callVars, depth+1)
+			default:
+				in = GoStmt{Kind: StAssign, Text: g.nm.lower() + " := " + fmt.Sprint(r.Intn(9))}
+			}
+			in.InCallback = true
+			st.Inner = append(st.Inner, in)
+			lines = append(lines, strings.Repeat("\t", depth+1)+in.Text)
+		}
+		lit := "func(" + p + " " + r.Pick(goBuiltin) + ") {\n" + strings.Join(lines, "\n") + "\n" + strings.Repeat("\t", depth) + "}"
+		if args != "" {
+			args += ", "
+		}
+		args += lit
+	}
+	st.Text = st.Qual + "." + st.Func + "(" + args + ")"
 }
 
 func (g *goGen) returnStmt(fn *GoFunc, vars, quals, callVars []string) GoStmt {
@@ -830,6 +899,7 @@ func (f *GoFile) render(r *run.Rand) {
 		}
 	}
 	f.Text = sb.String()
+	f.InlineIfaces = strings.Count(f.Text, "interface{ ")
 }
 
 // Shape is a structural description without the random names.
@@ -881,8 +951,11 @@ func (f *GoFile) Shape() string {
 				}
 			}
 			sb.WriteString(";")
-			for _, s := range fn.Body {
+			for _, s := range fn.AllStmts() {
 				sb.WriteString(s.Kind[:1] + s.Kind[len(s.Kind)-1:])
+				if len(s.Inner) > 0 {
+					fmt.Fprintf(&sb, "{%d}", len(s.Inner))
+				}
 			}
 			sb.WriteString(")")
 		}
